@@ -252,6 +252,57 @@ theorem removed_stays_silent (P : Prog σ) (h : Nat) (hq : Quiet P h) (e : Engin
     h ∉ (run P e steps).1.handlers ∧ enqsOf h (run P e steps).2 = [] :=
   run_gone P h hq steps e hsteps hgone
 
+theorem mem_sents_pops : ∀ (o : List Out) (x : Nat × Nat), x ∈ sents o → (x.1, some x.2) ∈ pops o
+  | [], _, h => by simp [sents] at h
+  | a :: r, x, h => by
+    cases a with
+    | sent g d t =>
+      simp only [sents, List.mem_cons] at h
+      rcases h with rfl | h
+      · simp [pops]
+      · simp only [pops, List.mem_cons]; right; exact mem_sents_pops r x h
+    | sendFailed g d => simp only [sents] at h; simp only [pops, List.mem_cons]; right; exact mem_sents_pops r x h
+    | enq g d => simp only [sents] at h; simpa [pops] using mem_sents_pops r x h
+    | handled g d => simp only [sents] at h; simpa [pops] using mem_sents_pops r x h
+    | unhandled d => simp only [sents] at h; simpa [pops] using mem_sents_pops r x h
+    | raised g => simp only [sents] at h; simpa [pops] using mem_sents_pops r x h
+    | timedOut g => simp only [sents] at h; simpa [pops] using mem_sents_pops r x h
+    | failed g => simp only [sents] at h; simpa [pops] using mem_sents_pops r x h
+    | died => simp only [sents] at h; simpa [pops] using mem_sents_pops r x h
+
+/-- **no further transmission once answered** — the full statement needs one hypothesis the code does not enforce: that no
+transmission of `h` is still PENDING in the send queue when the reply is handled (`hnoq`).  Then, from the answering iteration on,
+for any environment and any number of further steps, nothing of `h` is ever transmitted and `h` stays unregistered.
+(Without `hnoq` the statement is false for the model and for the code: a retransmission that `retry` queued just before the reply
+arrived — and that the throttle or a backlog kept in the queue — is still transmitted after the handler is gone; see the `example`
+below and the harness finding `answered:retransmission-after-answer`.) -/
+theorem answered_no_further_transmission (P : Prog σ) (h : Nat) (hq : Quiet P h) (e : Engine σ) (env : Env) (ha : e.alive = true)
+    (hans : Answered h (afterRecv P e env).1) (hnoq : ∀ x ∈ e.sendq, x.1 ≠ h)
+    (halive : (engineIter P e env).1.alive = true)
+    (steps : List Step) (hsteps : ∀ s ∈ steps, s.mentions h = false) :
+    (∀ x ∈ sents (run P (engineIter P e env).1 steps).2, x.1 ≠ h) ∧ h ∉ (run P (engineIter P e env).1 steps).1.handlers := by
+  obtain ⟨hen, hrem⟩ := answered_removed P h hq e env ha hans
+  have hgone := hrem halive
+  -- nothing of h in the queue after the answering iteration
+  have hq1 : ∀ x ∈ (engineIter P e env).1.sendq, x.1 ≠ h := by
+    intro x hx
+    have hf := (engineIter_rel P e env).fifo
+    have : x ∈ e.sendq ++ enqs (engineIter P e env).2 := by rw [hf]; simp [hx]
+    rcases List.mem_append.1 this with h1 | h1
+    · exact hnoq x h1
+    · intro hxh
+      have := mem_enqs_of h _ x h1 hxh
+      rw [hen] at this; cases this
+  obtain ⟨g1, g2⟩ := run_gone P h hq steps _ hsteps hgone
+  refine ⟨fun x hx hxh => ?_, g1⟩
+  have hp := mem_sents_pops _ x hx
+  have hf := fifo_sends P (engineIter P e env).1 steps
+  have : (x.1, some x.2) ∈ (engineIter P e env).1.sendq ++ enqs (run P (engineIter P e env).1 steps).2 := by rw [hf]; simp [hp]
+  rcases List.mem_append.1 this with h1 | h1
+  · exact hq1 _ h1 hxh
+  · have := mem_enqs_of h _ _ h1 hxh
+    rw [g2] at this; cases this
+
 /-! ## retry_exact -/
 
 /-- **retry**: a request handler `h` with timeout `T > 0`, `N` retries and the default `on_retry_failed`, already transmitted once
@@ -413,7 +464,7 @@ theorem block_survives (cli : Block) (start budget : Nat) (preB : List Ev) (hcos
 
 /-- handlers: 0 = packet handler (accepts any `<PACKT>`, unwraps), 1 = a request (accepts its own verb 1 and the reply verb 2; the
 reply marks it and its on_handled creates, registers and queues the next request 3), 2 = an overlapping acceptor of verb 2
-registered later, 3 = the next request, 4 = a handler whose `handle` raises -/
+registered later, 3 = the next request, 4 = a handler whose `handle` raises, 5 = a handler whose `on_handled` raises -/
 def exSpec (h : Nat) : Spec Nat :=
   match h with
   | 0 => { canHandle := fun d => match d with | .pkt _ => true | .raw _ => false
@@ -432,6 +483,9 @@ def exSpec (h : Nat) : Spec Nat :=
   | 4 => { canHandle := fun d => d == .raw 4
            timeout := 15000, retries := 2, onFail := .remove, sendable := true
            handle := fun c _ => ⟨c + 100, [], true⟩, onHandled := fun c _ => ⟨c, [], false⟩ }
+  | 5 => { canHandle := fun d => d == .raw 5
+           timeout := 0, retries := 0, onFail := .none, sendable := true
+           handle := fun c _ => ⟨c, [], false⟩, onHandled := fun c _ => ⟨c + 1000, [], true⟩ }
   | _ => { canHandle := fun _ => false, timeout := 0, retries := 0, onFail := .none, sendable := true
            handle := fun c _ => ⟨c, [], false⟩, onHandled := fun c _ => ⟨c, [], false⟩ }
 
@@ -470,12 +524,34 @@ example : dispatchWith exP none (.raw 9) exE = (exE, [.unhandled (.raw 9)]) :=
 example : invoke exP none 4 (.raw 4) exE = ({ exE with client := 100 }, [.handled 4 (.raw 4), .raised 4]) :=
   exception_isolated exP none 4 (.raw 4) exE rfl rfl
 
+/-- an `on_handled` that raises: only the handler's own timeout reset (by `handled()`, before the callback) and the client state -/
+example : (invoke exP none 5 (.raw 5) { exE with clock := 77 }).1 =
+      { exE with clock := 77, client := 1000, hs := upd exE.hs 5 { exE.hs 5 with start := 77 } } ∧
+    (invoke exP none 5 (.raw 5) { exE with clock := 77 }).2 = [.handled 5 (.raw 5), .raised 5] :=
+  exception_isolated_on_handled exP none 5 (.raw 5) _ rfl rfl (fun _ => rfl) (fun _ => rfl)
+
+example : dispatchWith exP none (.raw 2) exE = invoke exP none 1 (.raw 2) exE :=
+  first_match_index exP none (.raw 2) exE 1 1 rfl (by decide) (by
+    intro j g hj hg
+    have : j = 0 := by omega
+    subst this
+    have : g = 0 := by simpa [exE] using hg.symm
+    subst this; decide)
+
+example : (sents (run exP { exE with handlers := [0, 1, 2] } [.queueSend 1 (some 7), .queueSend 2 (some 8), idle 20001, idle 20001]).2).map
+      (fun x => (x.1, some x.2)) =
+    enqs (run exP { exE with handlers := [0, 1, 2] } [.queueSend 1 (some 7), .queueSend 2 (some 8), idle 20001, idle 20001]).2 :=
+  fifo_transmitted exP _ _ rfl (by decide) (by decide)
+
+example : handlerLoop exP 0 { exE with clock := 10 ^ 12 } = ({ exE with clock := 10 ^ 12 }, [], false) :=
+  timeout_zero_never exP 0 _ rfl
+
 theorem exP_noDeath : NoDeath exP :=
   ⟨fun g => by
     unfold exP exSpec
     match g with
-    | 0 | 1 | 2 | 3 | 4 => simp
-    | _ + 5 => simp, fun _ => rfl⟩
+    | 0 | 1 | 2 | 3 | 4 | 5 => simp
+    | _ + 6 => simp, fun _ => rfl⟩
 
 theorem exP_quiet1 : Quiet exP 1 := by
   intro g c d
@@ -488,7 +564,8 @@ theorem exP_quiet1 : Quiet exP 1 := by
   | 2 => simp
   | 3 => simp [Act.touches]
   | 4 => simp
-  | _ + 5 => simp
+  | 5 => simp
+  | _ + 6 => simp
 
 /-- answered: the reply (verb 2, inside a packet) reaches request 1 → gone at this clean-up, nothing queued for it, the next
 request 3 registered and queued -/
@@ -496,6 +573,24 @@ example : Answered 1 (afterRecv exP exE ⟨0, 1000, some (.pkt (.raw 2))⟩).1 :
 
 example : (engineIter exP exE ⟨0, 1000, some (.pkt (.raw 2))⟩).1.handlers = [0, 2, 4, 3] ∧
     enqsOf 1 (engineIter exP exE ⟨0, 1000, some (.pkt (.raw 2))⟩).2 = [] := by decide
+
+example : Answered 1 (dispatch exP (.pkt (.raw 2)) exE).1 :=
+  answered_inside_packet exP 1 0 exP_quiet1 (.raw 2) exE (by decide) rfl rfl (by decide) (fun _ => rfl) (fun _ => rfl)
+
+example : Answered 1 (dispatch exP (.raw 2) exE).1 :=
+  answered_when_first_match exP 1 exP_quiet1 (.raw 2) exE (by decide) rfl rfl
+
+example : enqsOf 1 (engineIter exP exE ⟨0, 1000, some (.pkt (.raw 2))⟩).2 = [] :=
+  (answered_removed exP 1 exP_quiet1 exE ⟨0, 1000, some (.pkt (.raw 2))⟩ rfl (by unfold Answered; decide)).1
+
+/-- ... and from then on nothing of request 1 is transmitted, whatever arrives (here: two more datagrams it used to accept) -/
+example : ∀ x ∈ sents (run exP (engineIter exP exE ⟨0, 1000, some (.pkt (.raw 2))⟩).1
+      [.iter ⟨30000, 0, some (.raw 2)⟩, .iter ⟨30000, 0, some (.pkt (.raw 1))⟩, idle 200000]).2, x.1 ≠ 1 :=
+  (answered_no_further_transmission exP 1 exP_quiet1 exE ⟨0, 1000, some (.pkt (.raw 2))⟩ rfl (by unfold Answered; decide)
+    (by intro x hx; cases hx) (by decide) _ (by decide)).1
+
+example : 1 ∉ (run exP { exE with handlers := [0, 2] } [.iter ⟨30000, 0, some (.raw 2)⟩, idle 200000]).1.handlers :=
+  (removed_stays_silent exP 1 exP_quiet1 { exE with handlers := [0, 2] } _ (by decide) (by decide)).1
 
 /-- retry: request 1 (T = 100 ms, N = 2), transmitted once to 7, never answered, engine iterating every 50 ms (Δ = 50000) -/
 def exR : Engine Nat := { exE with hs := upd exE.hs 1 ⟨0, 2, false, some 7⟩ }
@@ -512,6 +607,14 @@ theorem exSteps_ok : ∀ s ∈ exSteps, StepOK exP 1 50000 s := by
     subst this
     show (exP.spec 1).canHandle (.raw 9) = false
     decide
+
+example : (run exP exR exSteps).1.alive = true := by
+  rw [run_survives exP exP_noDeath.1 exP_noDeath.2]; rfl
+
+/-- one iteration at the 300002-th microsecond: age 100001 > T with no retry left → gone in this very iteration -/
+example : 1 ∉ (engineIter exP { exR with clock := 300001, hs := upd exR.hs 1 ⟨200001, 0, false, some 7⟩ } ⟨1, 0, none⟩).1.handlers :=
+  ((retry_last_timeout exP 1 exP_quiet1 exP_noDeath rfl { exR with clock := 300001, hs := upd exR.hs 1 ⟨200001, 0, false, some 7⟩ }
+    ⟨1, 0, none⟩ rfl (fun d hd => by cases hd) (by decide) (by intro x hx; cases hx)).1 (by decide)).1
 
 /-- all hypotheses of `retry_exact` hold here, and its conclusion is sharp: exactly 2 re-queues to 7, then removed (at 450 ms,
 inside (300, 450] = (s0 + 3T, s0 + 3(T+Δ)]) -/
@@ -530,6 +633,15 @@ only 2 reach the wire although 2 retries were consumed -/
 example :
     let r := run exP exE [.queueSend 1 (some 7), .queueSend 4 (some 9), idle 20001, idle 20001, idle 20001, idle 20001]
     failedSends r.2 = [(4, none)] ∧ sents r.2 = [(1, 7), (4, 9), (4, 9)] ∧ 4 ∉ r.1.handlers ∧ (enqsOf 4 r.2).length = 1 + 2 := by decide
+
+/-- (3) a retransmission still pending in the queue when the reply arrives is transmitted after the handler is gone: request 1
+(transmitted at 20001 µs) times out at 120002 µs and is re-queued; handler 2's datagram left 1 µs earlier, so the throttle holds the
+retransmission back; in the next iteration the reply (verb 2) is handled and request 1 removed; 20001 µs later the stale
+retransmission is transmitted all the same -/
+example :
+    let r := run exP { exE with handlers := [0, 1, 2] } [.queueSend 1 (some 7), idle 20001, .queueSend 2 (some 8),
+      .iter ⟨100000, 1, none⟩, .iter ⟨1000, 0, some (.raw 2)⟩, idle 20001, idle 20001]
+    sents r.2 = [(1, 7), (2, 8), (1, 7), (3, 7)] ∧ r.1.handlers = [0, 2, 3] := by decide
 
 /-- (2) an `on_retry_failed` that raises is not caught in `_thread_func`: the engine stops -/
 def exSpecX (h : Nat) : Spec Nat := if h = 1 then { exSpec 1 with retries := 0, onFail := .raises } else exSpec h
@@ -554,6 +666,11 @@ example :
       · exact (mem_simChain _ _ _ _).2 ⟨0, by decide, rfl⟩
       · cases hs)
     (block_survives _ 3 1 _ (by decide))).1
+
+example : ((HS.init (List.replicate 100 0) 1).run (List.replicate 100 0) 1 0
+      ([] ++ [.svers] ++ ([] ++ [.chcur] ++ ([] ++ [.files] ++ ([] ++ (simChain C01.exSpa 0 100).map Ev.seg).map liftEv)))).asm.cli = C01.exSpa :=
+  (handshake_block_identical C01.exSpa (List.replicate 100 0) 100 1 (by decide) (by decide) (by simp) [] [] [] []
+    (by decide) (by decide) (by decide) (by decide) (by decide) (by decide) (by intro s hs; cases hs) (Or.inl rfl)).2
 
 example : evsCost [Ev.seg (simSeg C01.exSpa 3 78 0), Ev.timeout] = 1 := by decide
 
